@@ -33,6 +33,11 @@ pub fn render(s: &Value, marker: &Path) -> String {
             "exit0" => "exit 0",
             "badquote" => "echo \"unterminated",
             "unknowncmd" => "nosuchcommand x",
+            "none" => "",
+            "out" => "res2 =",
+            "OUT" => "Res2 =",
+            "lbl" => ":lbl2",
+            "LBL" => ":Lbl2",
             _ => "ECHO x",
         });
         t.push_str(&line);
@@ -132,7 +137,8 @@ pub fn record(args: &[String]) {
     let mut s = Summary::new();
     for _ in 0..n {
         let len = 1 + r.below(10);
-        let st: Vec<&str> = (0..len).map(|_| *r.pick(&["echo", "echo", "echo", "echo", "echo", "crash", "exit3", "exit0", "badquote", "unknowncmd", "ECHO"])).collect();
+        let mut st: Vec<&str> = (0..len).map(|_| *r.pick(&["echo", "echo", "echo", "echo", "echo", "crash", "exit3", "exit0", "badquote", "unknowncmd", "ECHO", "none", "out", "out", "OUT", "lbl", "lbl", "LBL"])).collect();
+        if ["out", "OUT", "lbl", "LBL"].contains(&st[0]) { st[0] = "none"; }
         let missing = r.chance(1, 15);
         let script = json!({"st": st, "label": *r.pick(&["none", "lower", "Upper"]), "out": *r.pick(&["none", "none", "lower", "Upper"]), "missing": missing});
         let form = if missing { *r.pick(&["file", "-l", "--lint"]) } else { *r.pick(&["file", "file", "-e", "--eval", "-l", "--lint", "--version", "--help", "-h"]) };
